@@ -670,7 +670,17 @@ func (fr *Frame) modifiesOf(fcx *FuncContract, f *ssa.Function) []string {
 		e.pkg = c.P.typesPkg(fcx.PkgPath)
 	}
 	for _, m := range fcx.Modifies {
-		out = append(out, fr.resolveMod(m, e)...)
+		isNew := false
+		if strings.HasPrefix(m, "new ") {
+			isNew = true
+			m = strings.TrimSpace(m[4:])
+		}
+		for _, r := range fr.resolveMod(m, e) {
+			if isNew {
+				r = "new:" + r
+			}
+			out = append(out, r)
+		}
 	}
 	return out
 }
@@ -748,6 +758,15 @@ func (fr *Frame) resolveMod(m string, e *Env) (out []string) {
 	if !ok {
 		tfail("not a struct type")
 	}
+	if m[i+1:] == "*" {
+		var all []string
+		for k := 0; k < st.NumFields(); k++ {
+			name := fieldComp(t, k)
+			c.comp(fr.st, name, "(Array Ref "+c.sortOf(st.Field(k).Type())+")")
+			all = append(all, name)
+		}
+		return all
+	}
 	for k := 0; k < st.NumFields(); k++ {
 		if st.Field(k).Name() == m[i+1:] {
 			name := fieldComp(t, k)
@@ -760,7 +779,7 @@ func (fr *Frame) resolveMod(m string, e *Env) (out []string) {
 }
 
 func (fr *Frame) havocSet(mods []string) {
-	_ = fr.c
+	c := fr.c
 	all := false
 	for _, m := range mods {
 		if m == "all" {
@@ -772,9 +791,24 @@ func (fr *Frame) havocSet(mods []string) {
 		return
 	}
 	sort.Strings(mods)
+	preAlloc := c.comp(fr.st, "alloc", "(Array Ref Bool)")
 	for _, m := range mods {
 		if m == "alloc" {
 			fr.growAlloc()
+			continue
+		}
+		if strings.HasPrefix(m, "new:") {
+			name := m[4:]
+			srt, ok := c.compSort[name]
+			if !ok {
+				continue
+			}
+			old := c.comp(fr.st, name, srt)
+			fr.havocOne(name)
+			if strings.HasPrefix(srt, "(Array Ref ") {
+				nw := fr.st.comps[name]
+				c.assert("(forall ((r Ref)) (! (=> (select " + preAlloc + " r) (= (select " + nw + " r) (select " + old + " r))) :pattern ((select " + nw + " r))))")
+			}
 			continue
 		}
 		fr.havocOne(m)
@@ -1224,6 +1258,10 @@ func (fr *Frame) checkEnsures(ret *ssa.Return, rs []Term) {
 		return
 	}
 	sig := fr.fn.Signature
+	for _, gs := range fr.fc.ExitSets {
+		fr.applyGhostSet(gs, ret, nil, rs, sig, fr.entry)
+	}
+	fr.checkFrame(ret)
 	for _, en := range fr.fc.Ensures {
 		e := fr.env(ret.Block())
 		fr.bindResults(e, sig, rs, nil)
@@ -1405,7 +1443,7 @@ func factRelevant(f *FactDecl, fc *FuncContract) bool {
 	if f.File.PkgPath == "" {
 		return true
 	}
-	return f.File.PkgPath == fc.PkgPath || len(f.Clause.Props) == 0
+	return f.File.PkgPath == fc.PkgPath
 }
 
 func (fr *Frame) patternSeen(pat string) bool {
@@ -1432,4 +1470,67 @@ func (fr *Frame) patternSeen(pat string) bool {
 		}
 	}
 	return false
+}
+
+// checkFrame: a function with a declared `modifies` must leave every other
+// component unchanged on objects that existed at entry.
+func (fr *Frame) checkFrame(ret *ssa.Return) {
+	c := fr.c
+	fc := fr.fc
+	if fc == nil || !fc.HasMod {
+		return
+	}
+	declared := map[string]bool{}
+	for _, m := range fr.modifiesOf(fc, fr.fn) {
+		if m == "all" {
+			return
+		}
+		declared[m] = true
+	}
+	if c.dry {
+		return
+	}
+	names := make([]string, 0, len(fr.st.comps))
+	for n := range fr.st.comps {
+		names = append(names, n)
+	}
+	sort.Strings(names)
+	entryAlloc := fr.entry.comps["alloc"]
+	if entryAlloc == "" {
+		entryAlloc = c.compInit["alloc"]
+	}
+	for _, n := range names {
+		if n == "alloc" || n == "held" || strings.HasPrefix(n, "RV_") || strings.HasPrefix(n, "recvd") || strings.HasPrefix(n, "closed") {
+			continue
+		}
+		if declared[n] {
+			continue
+		}
+		cur := fr.st.comps[n]
+		ent, ok := fr.entry.comps[n]
+		if !ok {
+			ent = c.compInit[n]
+		}
+		if cur == ent {
+			continue
+		}
+		srt := c.compSort[n]
+		var goal Term
+		if strings.HasPrefix(srt, "(Array Ref ") {
+			goal = "(forall ((r Ref)) (=> (select " + entryAlloc + " r) (= (select " + cur + " r) (select " + ent + " r))))"
+		} else {
+			if declared["new:"+n] {
+				continue
+			}
+			goal = "(= " + cur + " " + ent + ")"
+		}
+		ord := fr.callOrd["frame:"+n]
+		fr.callOrd["frame:"+n] = ord + 1
+		name := fr.oblName("frame", n)
+		if ord > 0 {
+			name += fmt.Sprintf("@ret%d", ord)
+		}
+		c.oblige(&Obligation{Name: name, Kind: "frame", Label: n, PC: fr.pc, Goal: goal, Where: c.P.pos(ret.Pos()) + " (" + fc.Where + ")",
+			Src: "component " + n + " is not in the declared modifies set"})
+	}
 }
